@@ -36,6 +36,15 @@ def main():
     lines, violations = [], []
     broken = []
 
+    # 0. regenerate translated model files from /repo's current source (tie T), when the property has a translator
+    if hasattr(mod, "pregen"):
+        try:
+            perr = mod.pregen(ctx)
+        except Exception:
+            perr = "translator exception:\n" + traceback.format_exc()
+        if perr:
+            broken.append({"kind": "translator", "name": "source-to-Gallina translation(%s)" % pid, "detail": str(perr)[-3000:]})
+
     # 1. proofs
     if a.no_proof:
         proof = {"ok": True, "assumptions": "", "obligations": 1, "discharged": 1, "files": [], "log": "skipped", "failed": None}
